@@ -9,7 +9,7 @@
 (***************************************************************************)
 EXTENDS Pyxis, Props, Json
 
-CONSTANTS MaxFuncs, Idxs, TSizes, CCs, ImplCCs, Ptrs, NoRecv
+CONSTANTS MaxFuncs, Idxs, TSizes, CCs, ImplCCs, Ptrs, NoRecv, SweepCCs
 
 MIdxs == {None, 0, 1, 2, 4}
 MSizes == {None, 0, 1, 2, 3, 5}
@@ -37,12 +37,15 @@ MkInput(ptr, n, idxs, size, cc, icc, recv, vdoc, norecv) ==
   IN [ptr |-> ptr, mods |-> <<m>>]
 
 MCInit ==
-  /\ \E ptr \in Ptrs, n \in 0..MaxFuncs, i1 \in Idxs, i2 \in Idxs, i3 \in Idxs, size \in TSizes,
-        cc \in CCs, icc \in ImplCCs, recv \in BOOLEAN, vdoc \in {<<>>, <<" the table">>}, norecv \in NoRecv :
-        /\ (n < 1 => i1 = None) /\ (n < 2 => (i2 = None /\ cc = "")) /\ (n < 3 => i3 = None)
-        /\ /\ (vdoc # <<>> => (recv /\ icc = ""))
-        /\ (norecv => (vdoc = <<>> /\ icc = "" /\ recv /\ size = None))
-        /\ input = MkInput(ptr, n, <<i1, i2, i3>>, size, cc, icc, recv, vdoc, norecv)
+  /\ \/ \E ptr \in Ptrs, n \in 0..MaxFuncs, i1 \in Idxs, i2 \in Idxs, i3 \in Idxs, size \in TSizes,
+           cc \in CCs, icc \in ImplCCs, recv \in BOOLEAN, vdoc \in {<<>>, <<" the table">>}, norecv \in NoRecv :
+           /\ (n < 1 => i1 = None) /\ (n < 2 => (i2 = None /\ cc = "")) /\ (n < 3 => i3 = None)
+           /\ (vdoc # <<>> => (recv /\ icc = ""))
+           /\ (norecv => (vdoc = <<>> /\ icc = "" /\ recv /\ size = None))
+           /\ input = MkInput(ptr, n, <<i1, i2, i3>>, size, cc, icc, recv, vdoc, norecv)
+     (* the convention sweep: every name on the slot and on the wrapper, the other dimensions at rest *)
+     \/ \E ptr \in Ptrs, cc \in SweepCCs \cup {""}, icc \in SweepCCs \cup {""}, recv \in BOOLEAN :
+           input = MkInput(ptr, 2, <<None, None, None>>, None, cc, icc, recv, <<>>, FALSE)
   /\ InitRest
 
 MCSpec == MCInit /\ [][Next]_vars /\ WF_vars(Next)
